@@ -51,6 +51,10 @@ pub fn big_pool() -> J {
         n("text", 1, "", "parsed", &[3, -1, 1], ""), // 25 value of y
         n("text", 1, "", "parsed", &[3, -2, 1], ""), // 26 value of z
         n("text", 1, "", "parsed", &[3, 1, 3, -1, 1], ""), // 27 value of x
+        // twins: distinct nodes that LOOK the same (an implementation must tell nodes apart by identity)
+        n("elem", 1, "", "create", &[], "g"),        // 28
+        n("text", 1, "", "create", &[], "v"),        // 29
+        n("comment", 1, "", "create", &[], "m"),     // 30
     ];
     // slots for the nodes that split_text creates
     for _ in 0..4 {
@@ -387,7 +391,10 @@ fn random_call(w: &World, rng: &mut StdRng) -> J {
         }
         45..=59 => {
             let old = if rng.gen_bool(0.8) { pick_child(rng, r).unwrap_or(*movable.choose(rng).unwrap()) } else { *movable.choose(rng).unwrap() };
-            json!({"op": "replace_child", "r": r, "n": movable.choose(rng).unwrap(), "old": old})
+            // every third time the replacement is a node of the same kind as the one it replaces (look-alikes among them)
+            let same_kind: Vec<usize> = movable.iter().cloned().filter(|i| w.kind[*i] == w.kind[old] && *i != old).collect();
+            let nn = if !same_kind.is_empty() && rng.gen_range(0..3) == 0 { *same_kind.choose(rng).unwrap() } else { *movable.choose(rng).unwrap() };
+            json!({"op": "replace_child", "r": r, "n": nn, "old": old})
         }
         60..=74 => {
             let old = if rng.gen_bool(0.8) { pick_child(rng, r).unwrap_or(*movable.choose(rng).unwrap()) } else { *movable.choose(rng).unwrap() };
